@@ -46,13 +46,17 @@ func init() { register("C07", runC07) }
 type c07Val struct {
 	Ctr int
 	Set []int // sorted, unique
+	// Touch counts the Merge calls that ran on this (stored) object without finding a change. It is
+	// not part of the logical value (MergeContent ignores it, the judge strips it from digests); it
+	// makes memberlist's in-place merge on the "no change" path observable.
+	Touch int
 }
 
 func (v *c07Val) clone() *c07Val {
 	if v == nil {
 		return &c07Val{}
 	}
-	return &c07Val{Ctr: v.Ctr, Set: append([]int(nil), v.Set...)}
+	return &c07Val{Ctr: v.Ctr, Set: append([]int(nil), v.Set...), Touch: v.Touch}
 }
 
 func (v *c07Val) has(id int) bool {
@@ -92,6 +96,7 @@ func (v *c07Val) Merge(other memberlist.Mergeable, _ bool) (memberlist.Mergeable
 		}
 	}
 	if ch.Ctr == 0 && len(ch.Set) == 0 {
+		v.Touch++
 		return nil, nil
 	}
 	return ch, nil
@@ -130,15 +135,23 @@ func c07Digest(x interface{}) string {
 		}
 		ids = strings.Join(s, ",")
 	}
-	return strconv.Itoa(v.Ctr) + "/" + ids
+	d := strconv.Itoa(v.Ctr) + "/" + ids
+	if v.Touch > 0 {
+		d += "~" + strconv.Itoa(v.Touch)
+	}
+	return d
 }
 
 func c07ParseDigest(s string) *c07Val {
 	if s == "n" {
 		return nil
 	}
-	p := strings.SplitN(s, "/", 2)
 	v := &c07Val{}
+	if i := strings.IndexByte(s, '~'); i >= 0 {
+		v.Touch, _ = strconv.Atoi(s[i+1:])
+		s = s[:i]
+	}
+	p := strings.SplitN(s, "/", 2)
 	v.Ctr, _ = strconv.Atoi(p[0])
 	if len(p) > 1 && p[1] != "-" {
 		for _, x := range strings.Split(p[1], ",") {
@@ -257,7 +270,7 @@ func c07NewBackend(kind string, budget int) c07Backend {
 type c07Op struct {
 	key       int
 	failFirst int  // the first failFirst attempts return (nil, true, err): "fail with retry"
-	kind      byte // i increment, a append, d decline, e fail without retry
+	kind      byte // i increment, a append, z return the input, d decline, e fail without retry
 	retry     bool // retry flag returned together with a value
 }
 
@@ -333,6 +346,9 @@ func (o c07Op) apply(in interface{}, a int, id int) (out interface{}, retry bool
 	case 'a':
 		v := cur.clone()
 		v.add(id)
+		return v, o.retry, nil, "w" + r + "=" + c07Digest(v)
+	case 'z': // returns its input unchanged (an empty value for an absent key)
+		v := cur.clone()
 		return v, o.retry, nil, "w" + r + "=" + c07Digest(v)
 	case 'd':
 		return nil, o.retry, nil, "nil"
@@ -776,6 +792,13 @@ func c07RandOp(r *rng, nKeys int, allowSlow bool) c07Op {
 		if allowSlow && r.chance(1, 6) {
 			o.failFirst = 99 // always fails with retry: the budget is exhausted
 		}
+	}
+	if allowSlow && r.chance(1, 12) {
+		// a function that returns its input: a same-value write on consul/etcd, "no change detected"
+		// (an error, not retried: retry=false avoids memberlist's 1 s sleep) on memberlist, where the
+		// merge still runs in place on the stored object. Scheduled random runs only: the stress judge
+		// relies on strictly growing values.
+		o = c07Op{key: o.key, kind: 'z', retry: false}
 	}
 	return o
 }
